@@ -1,6 +1,6 @@
 (* Corr/C31.v — a C31 correspondence case: HNSW parameters, a history of
    set_vector / delete / reopen operations with the levels the implementation drew,
-   and searches with the implementation's answers (distances as exact squared
+   and searches (Db::search_vector) with the implementation's answers (distances as exact squared
    integers, recovered by the harness from the reported f32 and re-checked there)
    together with the harness's own brute-force answer (spec side). *)
 From NDB Require Export Vector.Hnsw Corr.Common.
@@ -41,26 +41,26 @@ Definition small_state_ok (pr : params) (ix : index) (st : list (N * vec)) : boo
 (* `clean`: no id inserted twice and no reopen so far; `uniq`: no id inserted twice so far.
    At every reopen of a `uniq` history the hypothesis of Hnsw_reopen.reopen_same_checked
    (reopen_check) is evaluated on the state. *)
-Fixpoint go (pr : params) (ix : index) (st : list (N * vec)) (clean uniq : bool) (ops : list cop) : bool :=
+Fixpoint go (pr : params) (ix : index) (st : list (N * vec)) (del : list N) (clean uniq : bool) (ops : list cop) : bool :=
   match ops with
   | [] => true
   | CIns id v level :: t =>
       match insert pr ix id v level with
       | Ok ix' => let fresh := negb (existsb (fun b => (fst b =? id)%N) st) in
-                  go pr ix' (stored [OInsert id v level] st) (clean && fresh) (uniq && fresh) t
+                  go pr ix' (stored [OInsert id v level] st) del (clean && fresh) (uniq && fresh) t
       | _ => false
       end
-  | CDel _ :: t => go pr ix st clean uniq t
+  | CDel id :: t => go pr ix st (id :: del) clean uniq t
   | CReopen :: t =>
       (if uniq then reopen_check ix else true)
-      && match reopen ix with Ok ix' => go pr ix' st false uniq t | _ => false end
+      && match reopen ix with Ok ix' => go pr ix' st del false uniq t | _ => false end
   | CSearch q k impl bf :: t =>
-      let m := search pr ix q k in
+      let m := search_vector pr ix del q k in
       res_matches m impl
-      && list_eqb pair_eqb (brute_force st q k) bf
+      && list_eqb pair_eqb (brute_force (filter (fun b => negb (memN (fst b) del)) st) q k) bf
       && (if clean then small_state_ok pr ix st else true)
-      && match m with Ok (ix', _) => go pr ix' st clean uniq t | _ => go pr ix st clean uniq t end
+      && match m with Ok (ix', _) => go pr ix' st del clean uniq t | _ => go pr ix st del clean uniq t end
   end.
 
 Definition ok (c : case) : bool :=
-  go {| p_m := c_m c; p_efc := c_efc c; p_efs := c_efs c |} empty_index [] true true (c_ops c).
+  go {| p_m := c_m c; p_efc := c_efc c; p_efs := c_efs c |} empty_index [] [] true true (c_ops c).
